@@ -7,6 +7,8 @@ Open Scope N_scope.
 
 Inductive case :=
   | Case (q : request) (rules : list rule) (obs : list fired)
+  (* the same with SecRuleRemoveById directives after the rules *)
+  | CaseR (q : request) (rules : list rule) (rms : list removal) (obs : list fired)
   (* the tiny key-pattern matcher against Go's regexp on the pattern's source text *)
   | CRx (p : rxpat) (src : bytes) (lowsrc : bytes) (k : bytes) (res : bool)
   (* one operator evaluation against the registered Go operator *)
@@ -39,6 +41,7 @@ Fixpoint fired_eqb (a b : list fired) : bool :=
 Definition ok (c : case) : bool :=
   match c with
   | Case q rules obs => fired_eqb (run_tx csem ord_id q rules) obs
+  | CaseR q rules rms obs => fired_eqb (run_tx csem ord_id q (remove_rules rms rules)) obs
   | CRx p src lowsrc k res =>
     bytes_eqb (rx_small_src p) src && bytes_eqb (rx_small_src (rx_small_low p)) lowsrc
     && Bool.eqb (rx_small p k) res
